@@ -416,6 +416,15 @@ MODULE_WITNESSES = [
     ("strict:atoms:unparsable-atom-range", 4, DZ % ("atomNumbers 1\n      atomNumbersRange abc", "0.25"), False,
      "`atomNumbersRange abc` is accepted (ignored)"),
     ("strict:vector1d:missing-parenthesis", 4, DP % "(0.1, 0.2, 0.3, 0.4", False, "`centers (0.1, 0.2, 0.3, 0.4` without the closing parenthesis is accepted"),
+    # an unknown keyword on a line of its own at every depth: only check_keywords of that level can refuse it
+    ("strict:module:unknown-keyword-at-module-level", 4, "fooBar 2\n" + DZ % ("atomNumbers 1", "0.25"), False, "unknown keyword at the module level"),
+    ("strict:module:unknown-keyword-in-colvar", 4, (DZ % ("atomNumbers 1", "0.25")).replace("  width 0.5\n", "  width 0.5\n  fooBar 2\n"), False,
+     "unknown keyword in a colvar block"),
+    ("strict:module:unknown-keyword-in-component", 4, (DZ % ("atomNumbers 1", "0.25")).replace("    axis (0,0,1)\n", "    axis (0,0,1)\n    fooBar 2\n"), False,
+     "unknown keyword in a component block"),
+    ("strict:module:unknown-keyword-in-atom-group", 4, DZ % ("atomNumbers 1\n      fooBar 2", "0.25"), False, "unknown keyword in an atom group block"),
+    ("strict:module:unknown-keyword-in-bias", 4, (DZ % ("atomNumbers 1", "0.25")).replace("  forceConstant 4.0\n", "  forceConstant 4.0\n  fooBar 2\n"), False,
+     "unknown keyword in a bias block"),
     ("crash:colvar::groupcoordnum::init", 4, GC % "indexGroup nosuch", False, "groupCoord with an undefined index group"),
     ("crash:colvar::distance_inv::init", 4, (GC % "indexGroup nosuch").replace("groupCoord", "distanceInv"), False, "distanceInv with an undefined index group"),
     ("crash:colvar::distance_pairs::init", 4, (GC % "indexGroup nosuch").replace("groupCoord", "distancePairs"), False, "distancePairs with an undefined index group"),
